@@ -28,7 +28,7 @@ func init() {
 }
 
 func c15Rebind(c *core.Ctx) {
-	nh := c.N(400, 6000)
+	nh := c.N(400, 15000)
 	for idx := 0; idx < nh; idx++ {
 		if !c.Mine(idx) {
 			continue
@@ -103,7 +103,7 @@ func c15Rebind(c *core.Ctx) {
 // and attribute them correctly; delivering them under the old column list is
 // the mis-attribution the property excludes.
 func c15Recount(c *core.Ctx) {
-	nh := c.N(240, 3000)
+	nh := c.N(240, 8000)
 	for idx := 0; idx < nh; idx++ {
 		if !c.Mine(idx) {
 			continue
